@@ -18,10 +18,11 @@ PRE = r'''
 import re as _re
 from typing import List, Tuple, Optional, Union
 from vlib import build
+from crosshair import realize
 
 V = Union[int, str]
-def ok(vs):
-    return all(not isinstance(v, str) or (len(v) <= 2 and all(c in 'abAB' for c in v)) for v in vs)
+def ok(vs, n=1):
+    return all(not isinstance(v, str) or (len(v) <= n and all(c in 'abA' for c in v)) for v in vs)
 
 def _install_plugins():
     from vlib import plugins
@@ -141,7 +142,10 @@ for _n, _f in EXTRA.items():
 def ev(key, **ov):
     k = K[key]
     args = [{'uid': build.uid(0, a), 'value': v} for a, v in ov.items()]
-    return k(args).exec_function_in(build.uid(0, 'E1'))
+    inst = k(args)
+    # AVERAGEIFS: the final division is spied (symbolic division makes the solver crawl): the selected cells must be handed to _average
+    inst._average = lambda lst: ('AVG', sorted(lst))
+    return inst.exec_function_in(build.uid(0, 'E1'))
 '''
 
 
@@ -158,17 +162,20 @@ def run(report, tier, seed):
     for fn, (tpl, fold) in funcs.items():
         for form, (crit, accsrc) in forms.items():
             numeric = form in numeric_forms
-            sig = 'a1: V, a2: V, a3: V, b1: int, b2: int, b3: int, c1: int'
-            pre = 'ok([a1, a2, a3])'
+            # text / wildcard forms: one symbolic cell (the accept predicate is what they add; position selection is covered by the numeric forms)
+            sig = 'a1: V, a2: V, a3: V, b1: int, b2: int, b3: int, c1: int' if numeric else 'a1: str, b1: int, b2: int, b3: int'
+            pre = 'ok([a1, a2, a3])' if numeric else 'ok([a1], 3)'
+            head = '' if numeric else "a2, a3, c1 = 'ab', 7, 2\n                a1 = realize(a1)\n                "
+            accsrc = head + 'sel = select([[a1, a2, a3]], [' + accsrc + '])'
             if fold == 'sum':
                 exp = 'sum([b1, b2, b3][i] for i in sel)'
                 cmp_ = f"o == ('val', {exp})"
             elif fold == 'count':
                 cmp_ = "o == ('val', len(sel))"
             else:
-                cmp_ = "(is_err(o) if not sel else (o[0] == 'val' and o[1] * len(sel) == sum([b1, b2, b3][i] for i in sel)))"
+                cmp_ = "(is_err(o) if not sel else o == ('val', ('AVG', sorted([b1, b2, b3][i] for i in sel))))"
             s.add(f'{fn}__{form}', sig, pre, f'''
-                sel = select([[a1, a2, a3]], [{accsrc}])
+                {accsrc}
                 if sel is None:
                     return True
                 o = outcome(lambda: ev(('{fn}', '{form}'), A1=a1, A2=a2, A3=a3, B1=b1, B2=b2, B3=b3, C1=c1))
@@ -196,17 +203,18 @@ def run(report, tier, seed):
     s.add('averageifs_two_pairs', six, 'True', '''
         sel = [i for i in range(3) if [a1, a2, a3][i] > 1 and [d1, d2, d3][i] < 7]
         o = outcome(lambda: ev(('averageifs2', ''), A1=a1, A2=a2, A3=a3, D1=d1, D2=d2, D3=d3))
-        return is_err(o) if not sel else (o[0] == 'val' and o[1] * len(sel) == sum([10, 20, 30][i] for i in sel))
+        return is_err(o) if not sel else o == ('val', ('AVG', sorted([10, 20, 30][i] for i in sel)))
     ''', encodes=enc, requires="('averageifs2', '') in K")
     for nm in ('sumifs_misaligned', 'countifs_misaligned', 'averageifs_misaligned', 'sumifs_wide_vs_tall'):
         s.add(nm, 'a1: int, a2: int, a3: int', 'True', f'''
             return is_err(outcome(lambda: ev(('{nm}', ''), A1=a1, A2=a2, A3=a3)))
         ''', encodes=enc, requires=f"('{nm}', '') in K")
-    report.bound('3-row criteria column (cells Union[int, str(len<=2 over abAB)]), 3-row int target column, criterion cell int; criterion forms: '
+    report.bound('3-row criteria column (cells Union[int, str]: len<=1 for numeric criterion forms, one symbolic cell with str len<=3 over abA for text/wildcard forms, realised early (the solver enumerates the 40 texts)), 3-row int target column, criterion cell int; criterion forms: '
                  f'{len(forms)} (x 4 functions) + 10 structural shapes (2 pairs, target derivation, misaligned ranges)')
     report.assume('three-valued accept predicate: blank/boolean cells and wildcard matches that differ between the case-sensitive and case-insensitive '
                   'reading are unconstrained (the statement demands case-insensitivity for plain text only); a text cell under a numeric comparison '
                   'must not match except for <> (Excel)',
+                  'AVERAGEIFS: the cells handed to _average are compared (the division itself is covered by C11 average_helper_small_ints)',
                   'outside the claim: date criteria, ranges longer than 3, more than 2 pairs, float cells',
                   'CrossHair patches: re.findall via finditer, ASCII str.lower/upper (texts are ASCII by precondition)')
     s.run(report)
